@@ -97,7 +97,7 @@ PROPS = {
                 trace_env={"VH_DEEP": "1"}, n_trace=dict(quick=96, thorough=800), n_search=dict(quick=1500, thorough=20000)),
     "C08": dict(trace_gen="C08", oracle="C08", relevant=rel({0: ALLF | {50}}),
                 n_trace=dict(quick=200, thorough=2000), n_search=dict(quick=2500, thorough=40000)),
-    "C09": dict(trace_gen="C09", oracle="C09", relevant=rel({0: STRUCT, 1: COMP, 9: {1, 2}}),
+    "C09": dict(trace_gen="C09", oracle="C09", relevant=rel({0: STRUCT, 1: COMP, 6: XY, 9: {1, 2}}),
                 n_trace=dict(quick=160, thorough=1500), n_search=dict(quick=2500, thorough=40000)),
     "C10": dict(trace_gen="C10", oracle="C10", relevant=rel({3: STRUCT, 4: LAYER | TREE, 14: {1, 2, 3}}), trace_env={"VH_CERT": "1"},
                 units=["vbalance", "normalize", "ns"], n_units=dict(quick=1200, thorough=12000), unit_classify=c10_unit,
